@@ -526,7 +526,15 @@ func Forall(bound []*Term, body *Term, pats ...*Term) *Term {
 				has = true
 			}
 		})
-		if has {
+		// ... and may contain only function applications over them (no connectives, ite, comparisons)
+		bad := false
+		Walk(p, map[*Term]bool{}, func(x *Term) {
+			switch x.Op {
+			case "not", "ite", "and", "or", "=>", "=", "<", "<=", ">", ">=", "distinct", "forall", "exists":
+				bad = true
+			}
+		})
+		if has && !bad {
 			keep = append(keep, p)
 		}
 	}
